@@ -88,11 +88,14 @@ Spawn(w, g, a, b) ==
               sv |-> c6.id, cv |-> c7.id] IN
   [id |-> Len(w.cos) + 1,
    w  |-> [c7.w EXCEPT !.cos = Append(@, [k |-> <<[t |-> "seq", ss |-> w.table[g], env |-> env]>>,
-                                          cur |-> Zero, done |-> FALSE, penv |-> env, heap |-> Heap0])]]
+                                          cur |-> Zero, done |-> FALSE, penv |-> env, heap |-> Heap0, defers |-> <<>>])]]
 
 \* ---------------------------------------------------------------- control stack helpers
 EndBody == [k |-> "$endbody"]
-RECURSIVE ToLoop(_), PastBreakTarget(_)
+LabOf(x) == IF "lab" \in DOMAIN x THEN x.lab ELSE ""
+RECURSIVE ToLoop(_), PastBreakTarget(_), ToLabel(_, _)
+\* labelled break / continue: the stack from the loop frame carrying that label
+ToLabel(k, lab) == IF Head(k).t \in {"loop", "range"} /\ LabOf(Head(k)) = lab THEN k ELSE ToLabel(Tail(k), lab)
 ToLoop(k) == IF Head(k).t \in {"loop", "range"} THEN k ELSE ToLoop(Tail(k))
 PastBreakTarget(k) == IF Head(k).t \in {"loop", "range", "sw"} THEN Tail(k) ELSE PastBreakTarget(Tail(k))
 PostFrames(lp) == IF lp.t = "range" \/ IsNone(lp.post) THEN <<>> ELSE <<[t |-> "seq", ss |-> <<lp.post>>, env |-> lp.env]>>
@@ -123,6 +126,7 @@ CaseStmts(cases, j, env) ==
 RangeStart(s, heap, flags) ==
   CASE s.kind = "slice"  -> [idx |-> 0, len |-> heap.s.len]                \* header snapshot, live element reads
     [] s.kind = "array"  -> [idx |-> 0, copy |-> heap.arr]                 \* an array is ranged over a COPY
+    [] s.kind = "parray" -> [idx |-> 0]                                    \* range &arr: no copy, elements are read live
     [] s.kind = "string" -> [idx |-> 0, pairs |-> RangeString(heap.str)]
     [] s.kind = "int"    -> [idx |-> 0, n |-> heap.n]
     [] s.kind = "int0"   -> [idx |-> 0, n |-> heap.n0]
@@ -136,6 +140,7 @@ RangeNext(s, st, heap, flags) ==
                                   \* KF03b (as built): the array is ranged through arr[:], i.e. live
                                   v |-> IF "KF03b" \in flags THEN heap.arr[st.idx + 1] ELSE st.copy[st.idx + 1]]
                             ELSE [ok |-> FALSE, k |-> 0, v |-> 0]
+    [] s.kind = "parray" -> IF st.idx < Len(heap.arr) THEN [ok |-> TRUE, k |-> st.idx, v |-> heap.arr[st.idx + 1]] ELSE [ok |-> FALSE, k |-> 0, v |-> 0]
     [] s.kind = "string" -> IF st.idx < Len(st.pairs) THEN [ok |-> TRUE, k |-> st.pairs[st.idx + 1][1], v |-> st.pairs[st.idx + 1][2]] ELSE [ok |-> FALSE, k |-> 0, v |-> 0]
     [] s.kind \in {"int", "int0"} -> IF st.idx < st.n THEN [ok |-> TRUE, k |-> st.idx, v |-> 0] ELSE [ok |-> FALSE, k |-> 0, v |-> 0]
     [] s.kind = "map1"   -> IF st.idx < Len(st.pairs) THEN [ok |-> TRUE, k |-> st.pairs[st.idx + 1][1], v |-> st.pairs[st.idx + 1][2]] ELSE [ok |-> FALSE, k |-> 0, v |-> 0]
@@ -149,6 +154,58 @@ Mutate(m, heap) ==
     [] m.op = "nset" -> [heap EXCEPT !.n = 1]                                                        \* n = 1
     [] m.op = "strset" -> [heap EXCEPT !.str = <<122>>]                                              \* str = "z"
 
+RECURSIVE RunDefers(_, _)
+RunDefers(ds, w) == IF ds = <<>> \/ Panicked(w) THEN w ELSE RunDefers(Tail(ds), Log(w, Head(ds)))
+
+\* ---------------------------------------------------------------- constructs outside the supported subset (C12)
+\* [k:"unsup", u, id]: the renderer prints the real construct, the specification gives its meaning by
+\* desugaring into core statements (the same meaning Go gives it: validated against the native rendering).
+\* Kinds with a yield inside a generator body:
+\*   lbreak    L: for r.T(id) { for r.T(id+1) { Yield(a); break L } }
+\*   lcont     L: for r.T(id) { for r.T(id+1) { Yield(a); continue L }; r.E(id+2, a, b) }
+\*   goto      if r.T(id) { goto L }; Yield(a); L: r.E(id+1, a, b)
+\*   select    select { case v := <-rt.Ch(7): Yield(v) }
+\*   defer     defer r.E(id, a, b)
+\*   fallyield switch r.T(id) { case true: Yield(a); fallthrough; default: Yield(b) }
+\*   ifinit    if Yield(a); r.T(id) { r.E(id+1, a, b) }
+\*   rparr     for k, v := range &arr { r.E(id, k, v); Yield(v); arr[2] = 99 }     (no copy: live)
+\*   rfunc     for v := range rt.Seq3 { Yield(v) }                                 (yields 1, 2, 3)
+\*   rtparam   for _, v := range ts { Yield(v) }   with ts of a type-parameter type ~[]int holding 10, 20, 30
+\* Negative controls, inside a closure nested in the generator (no yield inside; must be accepted):
+\*   clo-lbreak clo-goto clo-select clo-defer clo-rfunc clo-rparr clo-fall
+UY(v) == [k |-> "yield", v |-> v]
+UVar(n) == [k |-> "var", n |-> n]
+ULit(n) == [k |-> "lit", v |-> n]
+UEff(id) == [k |-> "eff", id |-> id]
+UEffX(id, v) == [k |-> "effx", id |-> id, v |-> v]
+UT(id) == [k |-> "t", id |-> id]
+UFor(lab, id, body) == [k |-> "for", init |-> None, c |-> UT(id), post |-> None, body |-> body, lab |-> lab]
+UIf(id, a, b) == [k |-> "if", init |-> None, c |-> UT(id), a |-> a, b |-> b]
+UCase(g, body, ft) == [g |-> g, body |-> body, ft |-> ft]
+URange(kind, id, body) == [k |-> "range", id |-> id, kind |-> kind, xf |-> "var", kf |-> "def", vf |-> "def", wrap |-> "none", body |-> body]
+Desugar(s) ==
+  LET id == s.id IN
+  CASE s.u = "lbreak" -> <<UFor("L", id, <<UFor("", id + 1, <<UY(UVar("a")), [k |-> "lbreak", lab |-> "L"]>>)>>)>>
+    [] s.u = "lcont"  -> <<UFor("L", id, <<UFor("", id + 1, <<UY(UVar("a")), [k |-> "lcont", lab |-> "L"]>>), UEff(id + 2)>>)>>
+    [] s.u = "goto"   -> <<UIf(id, <<>>, <<UY(UVar("a"))>>), UEff(id + 1)>>
+    [] s.u = "select" -> <<UY(ULit(7))>>
+    [] s.u = "defer"  -> <<[k |-> "defer", id |-> id]>>
+    [] s.u = "fallyield" -> <<[k |-> "switch", init |-> None, form |-> "tag", c |-> UT(id),
+                               cases |-> <<UCase("t", <<UY(UVar("a"))>>, TRUE), UCase("d", <<UY(UVar("b"))>>, FALSE)>>]>>
+    [] s.u = "ifinit" -> <<UY(UVar("a")), UIf(id, <<UEff(id + 1)>>, <<>>)>>
+    [] s.u = "rparr"  -> <<URange("parray", id, <<[k |-> "effkv", id |-> id], UY(UVar("v")), [k |-> "mut", op |-> "aset", j |-> 2]>>)>>
+    [] s.u = "rfunc"  -> <<UY(ULit(1)), UY(ULit(2)), UY(ULit(3))>>
+    [] s.u = "rtparam" -> <<UY(ULit(10)), UY(ULit(20)), UY(ULit(30))>>
+    [] s.u = "clo-lbreak" -> <<UFor("L", id, <<UFor("", id + 1, <<UEff(id + 2), [k |-> "lbreak", lab |-> "L"]>>)>>)>>
+    [] s.u = "clo-goto"   -> <<UIf(id, <<>>, <<UEff(id + 1)>>), UEff(id + 2)>>
+    [] s.u = "clo-select" -> <<UEffX(id, ULit(7))>>
+    [] s.u = "clo-defer"  -> <<UEff(id + 1), UEff(id)>>
+    [] s.u = "clo-rfunc"  -> <<UEffX(id, ULit(1)), UEffX(id, ULit(2)), UEffX(id, ULit(3))>>
+    [] s.u = "clo-rparr"  -> <<URange("parray", id, <<[k |-> "effkv", id |-> id]>>)>>
+    [] s.u = "clo-fall"   -> <<[k |-> "switch", init |-> None, form |-> "tag", c |-> UT(id),
+                                cases |-> <<UCase("t", <<UEff(id + 1)>>, TRUE), UCase("d", <<UEff(id + 2)>>, FALSE)>>]>>
+UnsupYields(u) == u \in {"lbreak", "lcont", "goto", "select", "fallyield", "ifinit", "rparr", "rfunc", "rtparam"}
+
 \* ---------------------------------------------------------------- the interpreter
 \* Run(i, w): run coroutine i to its next yield / end / panic:  [st, w]
 \* Adv(i, w): it.MoveNext() on iterator i:                      [ok, w]
@@ -157,7 +214,10 @@ Adv(i, w) ==
   IF w.cos[i].done THEN [ok |-> FALSE, w |-> w]
   ELSE LET r == Run(i, w) IN
        IF r.st = "yield" THEN [ok |-> TRUE, w |-> r.w]
-       ELSE IF r.st = "done" THEN [ok |-> FALSE, w |-> [r.w EXCEPT !.cos[i].done = TRUE, !.cos[i].cur = Zero, !.cos[i].k = <<>>]]
+       ELSE IF r.st = "done" THEN
+            \* the function body ended: deferred calls run now (LIFO), inside this advance
+            LET wd == RunDefers(r.w.cos[i].defers, r.w) IN
+            [ok |-> FALSE, w |-> [wd EXCEPT !.cos[i].done = TRUE, !.cos[i].cur = Zero, !.cos[i].k = <<>>, !.cos[i].defers = <<>>]]
        ELSE [ok |-> FALSE, w |-> r.w]
 
 Run(i, w) ==
@@ -245,10 +305,15 @@ Run(i, w) ==
                           Run(i, SetK(w, i, <<[t |-> "seq", ss |-> CaseStmts(s.cases, s.j, s.env), env |-> s.env]>> \o rest))
       [] s.k = "block" -> Run(i, SetK(w, i, <<[t |-> "seq", ss |-> s.body, env |-> env]>> \o k1))
       [] s.k = "for"   -> LET ini == ApplyInit(s.init, env, w)
-                              lp  == [t |-> "loop", c |-> s.c, post |-> s.post, body |-> s.body, env |-> ini.env] IN
+                              lp  == [t |-> "loop", c |-> s.c, post |-> s.post, body |-> s.body, env |-> ini.env, lab |-> LabOf(s)] IN
                           IF IsNone(s.init) \/ s.init.k \in {"def", "def2"} THEN Run(i, SetK(ini.w, i, <<lp>> \o k1))
                           ELSE Run(i, SetK(w, i, <<[t |-> "seq", ss |-> <<s.init>>, env |-> env], lp>> \o k1))
       [] s.k = "break" -> Run(i, SetK(w, i, PastBreakTarget(k1)))
+      [] s.k = "lbreak" -> Run(i, SetK(w, i, Tail(ToLabel(k1, s.lab))))                    \* break L
+      [] s.k = "lcont"  -> LET kl == ToLabel(k1, s.lab) IN Run(i, SetK(w, i, PostFrames(Head(kl)) \o kl))   \* continue L
+      [] s.k = "defer"  -> \* defer r.E(id, a, b): the arguments are evaluated now, the call runs when the function ends
+                           Run(i, [SetK(w, i, k1) EXCEPT !.cos[i].defers = <<<<"e", s.id, Get(w, env, "a"), Get(w, env, "b")>>>> \o @])
+      [] s.k = "unsup" -> Run(i, SetK(w, i, <<[t |-> "seq", ss |-> Desugar(s), env |-> env]>> \o k1))
       [] s.k \in {"continue", "$endbody"} ->
                           LET kl == ToLoop(k1)
                               \* KF04 (as built): a `continue` under a yielding post statement skips the post
@@ -262,6 +327,7 @@ Run(i, w) ==
 \* ---------------------------------------------------------------- syntax helpers
 RECURSIVE HasY(_), HasYS(_)
 HasYS(s) == CASE s.k \in {"yield", "yfrom"} -> TRUE
+              [] s.k = "unsup" -> UnsupYields(s.u)
               [] s.k = "if"     -> HasY(s.a) \/ HasY(s.b)
               [] s.k = "switch" -> \E j \in 1..Len(s.cases) : HasY(s.cases[j].body)
               [] s.k \in {"block", "range"} -> HasY(s.body)
